@@ -3,11 +3,13 @@
 #include <unordered_set>
 #include <algorithm>
 #include <vector>
+#include <functional>
 #include "cache_model.h"
 
 struct Op {
 	int thread = 0; std::string kind; std::string key; std::set<std::string> trig; int64_t deadline = 0; std::string val; int how = 0;
 	// observation
+	int only_server = -1;   // network cache with several servers: rise/clear are broadcast server by server, each server is reached at its own moment inside the call
 	uint64_t inv = 0, ret = 0; bool hit = false; std::string rval; std::set<std::string> rtrig; int64_t rdl = 0; unsigned rkeys = 0, rtrigs = 0;
 	std::string str() const {
 		std::string s = "t" + std::to_string(thread) + " [" + std::to_string(inv) + "," + std::to_string(ret) + "] " + kind + "(" + key + ")";
@@ -30,12 +32,13 @@ std::string canon(const CacheModel &m){
 
 struct Lin {
 	std::vector<Op> &ops; int64_t now; uint64_t states = 0, limit_states; bool inconclusive = false; bool empty_trigger_refused = false;   // network cache: a store whose trigger list holds "" is refused and removes the key
-	std::unordered_set<std::string> seen;
+	std::unordered_set<std::string> seen; std::function<unsigned(const std::string&)> server_of;
 	Lin(std::vector<Op> &o,int64_t n,uint64_t ls) : ops(o), now(n), limit_states(ls) {}
 	bool apply(CacheModel &m,const Op &o){
 		if(o.kind == "store") { if(empty_trigger_refused && o.trig.count("")) m.remove(o.key); else m.store(o.key,o.val,o.trig,o.deadline,now); return true; }
 		if(o.kind == "fetch") { const CacheEntry *e = nullptr; bool h = m.fetch(o.key,now,&e); if(h != o.hit) return false; if(!h) return true;
 			if((o.how & 3) != 3 && e->val != o.rval) return false; if((o.how & 3) <= 1 && e->trig != o.rtrig) return false; if(((o.how & 3) == 0 || (o.how & 3) == 2) && e->deadline != o.rdl) return false; return true; }
+		if(o.only_server >= 0 && server_of && (o.kind == "rise" || o.kind == "clear")){ for(auto it = m.m.begin(); it != m.m.end();){ if((int)server_of(it->first) == o.only_server && (o.kind == "clear" || it->second.trig.count(o.key))) it = m.m.erase(it); else ++it; } return true; }
 		if(o.kind == "rise") { m.rise(o.key); return true; }
 		if(o.kind == "remove") { m.remove(o.key); return true; }
 		if(o.kind == "clear") { m.clear(); return true; }
@@ -43,7 +46,8 @@ struct Lin {
 		return true;
 	}
 	bool search(uint64_t done,const CacheModel &m){
-		if(done == (ops.size() >= 64 ? ~0ULL : ((1ULL << ops.size()) - 1))) return true;
+		if(ops.size() > 62){ inconclusive = true; return true; }
+		if(done == ((1ULL << ops.size()) - 1)) return true;
 		if(++states > limit_states){ inconclusive = true; return true; }
 		std::string key = std::to_string(done) + "#" + canon(m);
 		if(!seen.insert(key).second) return false;
